@@ -75,6 +75,8 @@ def gen_main(outcome):
             a(f'  printf("{sep}{o.name}=%lu:", (unsigned long)s->{o.name}_counter);')
             a(f'  hexs((const unsigned char *)&s->c.{o.name}, s->{o.name}_counter);')
             a('  printf(":-");')
+        elif o.type == T.BOOL:
+            a(f'  printf("{sep}{o.name}=%u", (unsigned)*(const unsigned char *)&s->c.{o.name});')
         elif o.type == T.INT and not o.int_signed:
             a(f'  printf("{sep}{o.name}=%llu", (unsigned long long)s->c.{o.name});')
         else:
@@ -203,7 +205,9 @@ def build(outcome, workdir, sanitize=False, cc=None, extra=()):
         f.write(gen_main(outcome))
     exe = os.path.join(workdir, "t")
     if sanitize:
-        cmd = [cc or "clang", "-g", "-O1", "-fsanitize=address,undefined", "-fno-omit-frame-pointer", "-fno-sanitize-recover=undefined"]
+        # arithmetic of the user's own expressions (overflow, shifts) is the program's business
+        cmd = [cc or "clang", "-g", "-O1", "-fsanitize=address,undefined", "-fno-sanitize=signed-integer-overflow,shift,bool,enum",
+               "-fno-omit-frame-pointer", "-fno-sanitize-recover=undefined"]
     else:
         cmd = [cc or "gcc", "-O1"]
     cmd += ["-w", *extra, "-o", exe, "main.c", "p.c"]
